@@ -48,6 +48,12 @@
   hand it on and DestroyEnvironment answers it (`tcFin`); the pre-deployment cleanup of a creation
   and the KillTasks of a creation's failure tail only log it.
 
+  A status update about a task that RUNS (step `statusUpdate`: a repeated TASK_RUNNING or a state
+  updateTaskStatus has no case for, as the master's answer to a reconciliation or a relayed update; the
+  optional fields agent_id / executor_id present or not) goes through `Task.onStatus`, the model of
+  updateTaskStatus over Model/TaskIds.lean: the two ids are copied under a nil guard each
+  (`idGuardsInCode`, tied to go/ast facts), so what an update omits never takes the lock off a task.
+
   Not modelled here: reconciliation (C18), automatic environments, the kill
   acknowledgements' blocking (an accepted KILL is answered at once: fairness premise "the
   master eventually reports killed tasks"), the acknowledgement KillTasks registers for a task
@@ -55,6 +61,7 @@
   it; Cleanup does not look at acknowledgements).
 -/
 import ControlModel.Basic
+import ControlModel.Model.TaskIds
 
 namespace Own
 
@@ -739,6 +746,48 @@ def mesosStart (s : State) (k : EnvId) : State :=
   { s with master := s.master.map (fun m => if m.id ∈ ids then { m with mesos := .running } else m),
            roster := s.roster.map (fun t => if t.id ∈ ids then { t with active := true, agent := true, executor := true } else t) }
 
+/-! ### status updates about running tasks -/
+
+/-- A status update as far as updateTaskStatus reads it: TASK_RUNNING or a state the switch has no case for
+    (the inactivating states belong to `hostLost` and to the oracles of a creation), and which of the OPTIONAL
+    fields agent_id / executor_id it carries (an update sent by the AliECS executor carries both; one built by
+    the master — the answer to a reconciliation after a re-subscription — need not). -/
+structure StatusUpd where
+  running : Bool
+  agent : Bool
+  executor : Bool
+  deriving DecidableEq, Repr, Inhabited
+
+/-- What the executor sends. -/
+def StatusUpd.complete (running : Bool := true) : StatusUpd := { running := running, agent := true, executor := true }
+
+/-- The nil guards in front of the two id copies of updateTaskStatus AS THE CODE HAS THEM
+    (Props/C04.lean `C04_status_id_copy_is_code` ties this to the regenerated go/ast facts). -/
+def idGuardsInCode : TaskIds.Guards := TaskIds.codeGuards
+
+/-- updateTaskStatus on one roster entry: TASK_RUNNING makes it ACTIVE and copies the ids (Model/TaskIds
+    `copyId`: under the guard, an absent field leaves the stored id alone; without it, it is blanked). -/
+def Task.onStatus (g : TaskIds.Guards) (u : StatusUpd) (t : Task) : Task :=
+  if u.running then
+    { t with active := true, agent := TaskIds.copyId g.agent t.agent u.agent,
+             executor := TaskIds.copyId g.executor t.executor u.executor }
+  else t
+
+/-- The identity fields of a roster entry, for Model/TaskIds. -/
+def Task.fields (t : Task) : TaskIds.Fields :=
+  { hostname := t.hostOk, agentId := t.agent, offerId := t.offer, taskId := true, executorId := t.executor,
+    parent := t.parent.isSome }
+
+def StatusUpd.kind (u : StatusUpd) : TaskIds.Kind := if u.running then .running else .other
+def StatusUpd.carried (u : StatusUpd) : TaskIds.Carried := { agent := u.agent, executor := u.executor }
+
+/-- A status update for roster task `x`. The master reports a state only for a task that lives: an entry one of
+    whose ids was blanked by a lost executor / agent (`hostLost`: every task it ran has ended, its row at the
+    master is terminal) gets none. A task that is not in the roster gets nothing either ("attempted status update of
+    task not in roster"). `g`: the guards — `idGuardsInCode` in `step`. -/
+def statusUpdate (g : TaskIds.Guards) (s : State) (x : TaskId) (u : StatusUpd) : State :=
+  { s with roster := s.roster.map (fun t => if decide (t.id = x) && t.agent && t.executor then t.onStatus g u else t) }
+
 /-! ### steps -/
 
 inductive Step where
@@ -756,6 +805,7 @@ inductive Step where
   | agentLost (h : Host)                                 -- FAILURE{agent}
   | watchError (k : EnvId) (fails : List (TaskId × Bool))
   | killFault (ids : List TaskId)                        -- from now on the KILL calls naming these tasks fail (and no others)
+  | statusUpdate (t : TaskId) (u : StatusUpd)            -- updateTaskStatus for a running task, optional fields present or not
   deriving Repr, Inhabited
 
 /-! ### the pendingTeardownsCh rendezvous as a schedule
@@ -863,6 +913,7 @@ def step (s : State) (st : Step) : State × Res :=
   | .agentLost h => (hostLost s h true, .ok)
   | .watchError k fails => (watchError s k fails, .ok)
   | .killFault ids => ({ s with refusing := ids }, .ok)
+  | .statusUpdate t u => (statusUpdate idGuardsInCode s t u, .ok)
 
 def run (s : State) : List Step → State
   | [] => s
